@@ -1,14 +1,14 @@
 #!/bin/sh
 # usage: verify_seed.sh <dir with patch.diff demo.py meta.json> -- confirms in a scratch worktree of /repo:
 # demo passes on the clean tree, patch applies, pinned tests still pass with it, demo fails with it
-S=$1
+S=$(cd "$1" && pwd)
 WT=$(mktemp -d /tmp/seedwt.XXXXXX)
 rmdir "$WT"
 git -C /repo worktree add -q "$WT" HEAD || exit 3
-PYTHONPATH="$WT" /venv/bin/python "$S/demo.py" >/tmp/seed_clean.out 2>&1; c=$?
+PYTHONPATH="$WT" /venv/bin/python "$S/demo.py" >"$WT.clean.out" 2>&1; c=$?
 git -C "$WT" apply "$S/patch.diff" || { echo "PATCH DOES NOT APPLY"; git -C /repo worktree remove --force "$WT"; exit 3; }
-"$(dirname "$0")/baseline.sh" "$WT" > /tmp/seed_base.out 2>&1; b=$?
-PYTHONPATH="$WT" /venv/bin/python "$S/demo.py" >/tmp/seed_mut.out 2>&1; m=$?
+"$(dirname "$0")/baseline.sh" "$WT" > "$WT.base.out" 2>&1; b=$?
+PYTHONPATH="$WT" /venv/bin/python "$S/demo.py" >"$WT.mut.out" 2>&1; m=$?
 git -C /repo worktree remove --force "$WT"
-echo "clean_demo_exit=$c baseline_exit=$b ($(head -1 /tmp/seed_base.out)) mutant_demo_exit=$m"
+tail -2 "$WT.mut.out"; rm -f "$WT".*.out.keep; echo "clean_demo_exit=$c baseline_exit=$b ($(head -1 "$WT.base.out")) mutant_demo_exit=$m"
 [ $c -eq 0 ] && [ $b -eq 0 ] && [ $m -eq 1 ]
